@@ -480,4 +480,100 @@ def copyVal : Nat → Val → M Val
     pure (.mref c)
   | _ + 1, v => pure v
 
+/-! ## text functions (Go `strings`, `strconv`) on ASCII text
+
+`strings.ToLower/ToUpper/TrimSpace/Trim/Contains/Split/ReplaceAll/Join`, `strconv.ParseInt(s, 10, 64)` and the
+conversion `[]rune(s)` transcribed for texts whose bytes are all below 0x80 (there bytes = runes); a text with
+a byte from 0x80 on makes the run `unmodelled` (Unicode case tables, U+0085/U+00A0 as white space, invalid
+UTF-8 replaced by U+FFFD are outside this model). -/
+
+def isAscii (s : Bytes) : Bool := s.all (fun c => c < 128)
+
+def lowerB (c : UInt8) : UInt8 := if 65 ≤ c && c ≤ 90 then c + 32 else c
+def upperB (c : UInt8) : UInt8 := if 97 ≤ c && c ≤ 122 then c - 32 else c
+
+/-- `unicode.IsSpace` below 0x80: `\t \n \v \f \r` and the space -/
+def isSpaceB (c : UInt8) : Bool := c = 32 || (9 ≤ c && c ≤ 13)
+
+/-- is `p` a prefix of `s` -/
+def hasPrefix : Bytes → Bytes → Bool
+  | [], _ => true
+  | _ :: _, [] => false
+  | a :: p, b :: s => a = b && hasPrefix p s
+
+/-- `strings.Contains(s, t)` -/
+def containsSub : Bytes → Bytes → Bool
+  | [], t => t.isEmpty
+  | c :: r, t => hasPrefix t (c :: r) || containsSub r t
+
+/-- `strings.Split(s, sep)` for a non-empty `sep`: cut at the occurrences found from left to right -/
+def splitAux (sep : Bytes) : Nat → Bytes → Bytes → List Bytes
+  | 0, s, cur => [cur.reverse ++ s]
+  | _ + 1, [], cur => [cur.reverse]
+  | f + 1, c :: r, cur =>
+    if hasPrefix sep (c :: r) then cur.reverse :: splitAux sep f ((c :: r).drop sep.length) []
+    else splitAux sep f r (c :: cur)
+
+/-- `strings.Split`: an empty separator cuts after every character (no piece for the empty text) -/
+def splitOn (s sep : Bytes) : List Bytes :=
+  if sep.isEmpty then s.map (fun c => [c]) else splitAux sep (s.length + 1) s []
+
+/-- `strings.ReplaceAll(s, old, new)` for a non-empty `old` -/
+def replAux (old new : Bytes) : Nat → Bytes → Bytes
+  | 0, s => s
+  | _ + 1, [] => []
+  | f + 1, c :: r =>
+    if hasPrefix old (c :: r) then new ++ replAux old new f ((c :: r).drop old.length)
+    else c :: replAux old new f r
+
+/-- `strings.ReplaceAll`: an empty `old` matches before every character and at the end -/
+def replaceAll (s old new : Bytes) : Bytes :=
+  if old.isEmpty then new ++ (s.map (fun c => c :: new)).flatten else replAux old new (s.length + 1) s
+
+def dropWhileB (p : UInt8 → Bool) : Bytes → Bytes
+  | [] => []
+  | c :: r => if p c then dropWhileB p r else c :: r
+
+/-- `strings.TrimFunc` on both ends -/
+def trimBoth (p : UInt8 → Bool) (s : Bytes) : Bytes :=
+  (dropWhileB p (dropWhileB p s).reverse).reverse
+
+/-- `strings.Join` -/
+def joinWith (sep : Bytes) : List Bytes → Bytes
+  | [] => []
+  | [x] => x
+  | x :: r => x ++ sep ++ joinWith sep r
+
+/-- `strconv.ParseInt(s, 10, 64)`: an optional sign, then decimal digits only, the value inside int64 -/
+def parseIntText (s : Bytes) : Option Int :=
+  let signed := s.head? = some 45 || s.head? = some 43
+  let body := if signed then s.drop 1 else s
+  if body.isEmpty || !body.all isDigit then none
+  else
+    let i : Int := if s.head? = some 45 then -(natOfDigits body : Int) else (natOfDigits body : Int)
+    if minInt64 ≤ i ∧ i ≤ maxInt64 then some i else none
+
+/-- `int64(f)` for a float inside the int64 range (truncation toward zero); `none` outside it and for
+NaN/±Inf, where Go's result depends on the processor -/
+def Flt.trunc : Flt → Option Int
+  | .fin neg m e =>
+    let mag : Nat := if e ≥ 0 then m * 2 ^ e.toNat else m / 2 ^ (-e).toNat
+    let i : Int := if neg then -(mag : Int) else (mag : Int)
+    if minInt64 ≤ i ∧ i ≤ maxInt64 then some i else none
+  | _ => none
+
+/-- `m == v1` on two interface values (`include`): `none` = both hold the same uncomparable type (slice, map,
+jp.Expr): a run-time panic; values of different kinds are different; floats compare as IEEE -/
+def goEq : Val → Val → Option Bool
+  | .null, .null => some true
+  | .bool a, .bool b => some (a = b)
+  | .int a, .int b => some (a = b)
+  | .flt a, .flt b => some (Flt.eq a b)
+  | .str a, .str b => some (a = b)
+  | .aref _, .aref _ => none
+  | .mref _, .mref _ => none
+  | .path _, .path _ => none
+  | _, _ => some false
+
+
 end OjgVerif.Asm
